@@ -190,6 +190,10 @@ func runPubWorkload(c *run.Ctx, pp pubParams) (*Episode, *pubAnalysis, []*sim.Pu
 		go func(g int) {
 			defer func() { done <- struct{}{} }()
 			for _, s := range plans[g] {
+				if pp.CleanSession {
+					// an application that takes note of a new session clears the flag
+					ep.D.C.InNewSession.Store(false)
+				}
 				ep.D.Publish(s.level, s.retain, s.size)
 				if s.release {
 					ep.W.Broker.ReleaseHeld()
